@@ -496,7 +496,7 @@ def main():
             cases.append((cs["name"] + "-history", cs["program"], cp.program_src(cs["program"]), h, None))
         cases.append((cs["name"], cs["program"], cp.program_src(cs["program"]), cs["run"], None))
     else:
-        nprog = int(os.environ.get('VERIF_C13_N', 100 if quick else 4000))
+        nprog = int(os.environ.get('VERIF_C13_N', 100 if quick else 2500))
         ntab = 24 if quick else 64
         made = 0
         attempts = 0
@@ -584,6 +584,15 @@ def main():
                 c.hist("stmt:" + k)
             modelled = (not probe) or name in ("probe-break-ignored", "probe-nested-return", "probe-invariant-while-sub-runs")
             ok = c12.compare(c, name, p, src, run, obs, mod, None, run_index=ri, history=hist) if modelled else True   # the other probes are outside the modelled fragment
+            if obs["kind"] == "hang":
+                # stopped by the per-simulation CPU / step guard of impl_c12: c12.compare has reported it (violation `hang` when
+                # the model completes the simulation, a skipped case when the generated program itself never yields)
+                if not modelled:
+                    c.violation("hang", f"{name}: the implementation does not finish the simulation: {obs.get('msg')}", dict(case=case, probe=probe))
+                    ok = False
+                if not ok:
+                    nfail += 1
+                continue
             # oracle: the documented semantics
             rk = ref["kind"]
             if not run.get("raise_gv", True) and rk in ("PreconditionViolation", "InvariantViolation"):
